@@ -113,6 +113,12 @@ TABLE = {
                      "branches; each tree is built through the API and evaluated; TLC's ripple-down interpreter Fire computes, per "
                      "assignment, which tagged conclusion must be produced and compares the multiset.",
                 technique="TLA+ reference interpreter (Fire) + TLC-generated rule trees replayed + TLC trace validation", ref="7 C12"),
+    "C09": dict(text="Each predicate-using query (an drained, the) and each rule (infer) is built once per ambient mode (none, "
+                     "symbolic_mode, rule_mode, nested) and evaluated under it; TLC judges every evaluation against the denotation "
+                     "and requires equal answers; the harness's counting predicates report whether any user predicate observed "
+                     "symbolic mode, and inferred objects must be real instances.",
+                technique="TLA+ denotational spec + TLC-generated programs replayed under every ambient mode + TLC trace validation",
+                ref="7 C09"),
 }
 
 REASON_PENDING = "check not built yet (work in progress; see DESIGN.md section 10)"
